@@ -319,3 +319,64 @@ def install_reader_monitors(rec):
     Model.GetTimeSeries = GetTimeSeries
     TimeSeriesHolder.GenerateCSVtext = GenerateCSVtext
     return [(Model, 'GetTimeSeries', o_get), (TimeSeriesHolder, 'GenerateCSVtext', o_csv)]
+
+
+# ---------------------------------------------------------------------------------------------
+# C06: Sector.AddCashFlow ledger post-condition (in situ)
+# ---------------------------------------------------------------------------------------------
+
+def install_cashflow_monitor(rec):
+    from sfc_models.sector import Sector
+    from sfc_models.equation import Term
+    orig = Sector.AddCashFlow
+
+    def AddCashFlow(self, term, eqn=None, desc=None, is_income=True):
+        rec.count('addcashflow.calls')
+        pre = None
+        try:
+            t = term.strip()
+            if len(t) > 0:
+                tobj = Term(t)
+                excluded = any(obj.ID == self.ID and tobj.Term == name
+                               for obj, name in self.GetModel().IncomeExclusions)
+                fb = [eval_hash(self.EquationBlock['F'].RHS(), s) for s in (0, 1)]
+                ib = [eval_hash(self.EquationBlock['INC'].RHS(), s) for s in (0, 1)]
+                tv = [tobj.Constant * eval_hash(tobj.Term, s) for s in (0, 1)]
+                had_def = None
+                if eqn is not None and tobj.Term in self.EquationBlock:
+                    had_def = self.EquationBlock[tobj.Term].RHS()
+                pre = (fb, ib, tv, excluded, tobj.Term, had_def)
+        except Exception:
+            rec.count('addcashflow.skipped')
+        out = orig(self, term, eqn=eqn, desc=desc, is_income=is_income)
+        if pre is not None:
+            try:
+                fb, ib, tv, excluded, core, had_def = pre
+                for i, s in enumerate((0, 1)):
+                    fa = eval_hash(self.EquationBlock['F'].RHS(), s)
+                    ia = eval_hash(self.EquationBlock['INC'].RHS(), s)
+                    ef = fb[i] + tv[i]
+                    ei = ib[i] + (tv[i] if (is_income and not excluded) else 0.0)
+                    if abs(fa - ef) > 1e-9 * max(1.0, abs(ef)):
+                        rec.violate('insitu_F_ledger', {'sector': self.Code, 'term': term, 'expected': ef, 'got': fa,
+                                                        'F': self.EquationBlock['F'].RHS()[:300]})
+                        break
+                    if abs(ia - ei) > 1e-9 * max(1.0, abs(ei)):
+                        rec.violate('insitu_INC_ledger', {'sector': self.Code, 'term': term, 'is_income': is_income,
+                                                          'excluded': excluded, 'expected': ei, 'got': ia,
+                                                          'INC': self.EquationBlock['INC'].RHS()[:300]})
+                        break
+                else:
+                    rec.count('addcashflow.post_evaluated')
+                if eqn is not None:
+                    now = self.EquationBlock[core].RHS() if core in self.EquationBlock else None
+                    if had_def is not None and had_def not in ('', '0.0') and now != had_def:
+                        rec.violate('insitu_definition_overwritten', {'sector': self.Code, 'var': core,
+                                                                      'before': had_def, 'after': now})
+                    rec.count('addcashflow.def_checked')
+            except Exception:
+                rec.count('monitor_error')
+        return out
+
+    Sector.AddCashFlow = AddCashFlow
+    return [(Sector, 'AddCashFlow', orig)]
